@@ -482,9 +482,11 @@ func c04Mutate(m hx.MMeta, payload any, variant string) (hx.MMeta, any) {
 			for k, v := range l.Products {
 				np[k] = v
 			}
-			np["zz-mutated"] = map[string]string{"sha256": "00"}
+			// a fresh entry each time: a second edit of the map must change the content again
+			name := fmt.Sprintf("zz-mutated-%d", len(np))
+			np[name] = map[string]string{"sha256": "00"}
 			l.Products = np
-			p.Products["zz-mutated"] = intoto.HashObj{"sha256": "00"} // in place: shared with whatever else holds the map
+			p.Products[name] = intoto.HashObj{"sha256": "00"} // in place: shared with whatever else holds the map
 		}
 		return hx.MMeta{Link: &l}, p
 	case intoto.Layout:
@@ -504,9 +506,10 @@ func c04Mutate(m hx.MMeta, payload any, variant string) (hx.MMeta, any) {
 			for k, v := range l.Keys {
 				nk[k] = v
 			}
-			nk["zz"] = hx.MKey{KeyID: "zz", KeyType: "ed25519", Scheme: "ed25519", Public: "00"}
+			id := fmt.Sprintf("zz%d", len(nk))
+			nk[id] = hx.MKey{KeyID: id, KeyType: "ed25519", Scheme: "ed25519", Public: "00"}
 			l.Keys = nk
-			p.Keys["zz"] = intoto.Key{KeyID: "zz", KeyType: "ed25519", Scheme: "ed25519", KeyVal: intoto.KeyVal{Public: "00"}}
+			p.Keys[id] = intoto.Key{KeyID: id, KeyType: "ed25519", Scheme: "ed25519", KeyVal: intoto.KeyVal{Public: "00"}}
 		}
 		return hx.MMeta{Layout: &l}, p
 	}
